@@ -58,6 +58,9 @@ class Harness(object):
         elif outcome == "return-falsy":
             self.R = FalsyObj()
             self.outcome = outcome = "return"
+        elif outcome == "return-exception":
+            self.R = KeyError("an exception object returned as a value")
+            self.outcome = outcome = "return"
         self.calls = {}  # registration -> list of argument tuples
         self.log = []
         self.body_entered = 0
@@ -305,7 +308,7 @@ def make(program, outcome, cbkind, opcode=False):
 
 
 LEVELS = [{"K": 0, "T": 0}, {"K": 1, "T": 0}, {"K": 1, "T": 1}, {"K": 2, "T": 1}, {"K": 3, "T": 1}, {"K": 4, "T": 1}, {"K": 5, "T": 2}]
-OUTCOMES = ("return", "raise", "return-falsy", "raise-falsy")
+OUTCOMES = ("return", "raise", "return-falsy", "raise-falsy", "return-exception")
 
 
 def harnesses(tier):
@@ -314,7 +317,7 @@ def harnesses(tier):
     progs_seq = ["reg;exec", "exec;reg", "reg;reg;exec", "exec;reg;reg", "pool"]
     for outcome in OUTCOMES:
         for cb in ("record", "raise", "arity"):
-            if outcome.endswith("falsy") and cb != "record":
+            if (outcome.endswith("falsy") or outcome == "return-exception") and cb != "record":
                 continue
             for p in progs_seq + progs_conc:
                 if p == "obs||exec" and cb != "record":
